@@ -273,6 +273,21 @@ def model_repr(s):
     return ''.join(out)
 
 
+class _StrMeta(type):
+    def __instancecheck__(cls, x):
+        return isinstance(x, str)
+
+    def __subclasscheck__(cls, c):
+        return issubclass(c, str)
+
+
+class FakeStr(metaclass=_StrMeta):
+    """Stands for the name ``str`` inside prettyprinter.prettyprinter during
+    the escape-kernel runs: isinstance behaves like str, ``str.__repr__`` is
+    the pure-Python model."""
+    __repr__ = model_repr
+
+
 def model_unescape(body, quote):
     """Inverse of the escaping for ASCII: the characters denoted by the body of
     a literal delimited by ``quote``; None if the body is not well formed
@@ -368,12 +383,16 @@ class EscapeCase(base.CaseBase):
             q = self.forced_quote or PP.determine_quote_strategy(s)
             body = PP.escape_str_for_quote(q, s)
         else:
+            # the code obtains the escaped form through repr(s) or
+            # str.__repr__(s): both names are rebound in the module namespace
             PP.repr = model_repr
+            PP.str = FakeStr
             try:
                 q = self.forced_quote or PP.determine_quote_strategy(s)
                 body = PP.escape_str_for_quote(q, s)
             finally:
                 del PP.repr
+                del PP.str
         if self.native:
             try:
                 back = ast.literal_eval(q + body + q)
